@@ -578,3 +578,162 @@ MUTANTS += [
     {"name": "range-parser-splits-on-semicolon", "expect": "R6.5", "edits": [(H, 'for item in rng.split(","):', 'for item in rng.split(";"):')]},
     {"name": "options-quote-test-second-char", "expect": "R6.1", "edits": [(H, """            elif rest[:1] == '"':""", """            elif rest[1:2] == '"':""")]},
 ]
+
+# ---- R6.7 / R6.8: whole-function laws (scanner loop of parse_options_header, Range / Content-Range shape classes) ----
+OPT_SCAN = '''                while pos < length:
+                    if rest[pos : pos + 2] in {"\\\\\\\\", '\\\\"'}:
+                        # Consume escaped slashes and quotes.
+                        pos += 2
+                    elif rest[pos] == '"':
+                        # Stop at an unescaped quote.
+                        parts.append((pk, rest[: pos + 1]))
+                        rest = rest[pos + 1 :]
+                        break
+                    else:
+                        # Consume any other character.
+                        pos += 1
+'''
+OPT_QUOTED = '''            elif rest[:1] == '"':
+                pos = 1
+                length = len(rest)
+
+''' + OPT_SCAN
+OPT_ADVANCE = '''        if (end := rest.find(";")) == -1:
+            break
+
+        rest = rest[end + 1 :].lstrip()
+'''
+CONT_RE = '''_continuation_re = re.compile(r"\\*(\\d+)$", re.ASCII)
+'''
+RANGE_ITEM = '''        if item.startswith("-"):
+            if last_end < 0:
+                return None
+'''
+RANGE_ORDER = '''            if begin < last_end or last_end < 0:
+                return None
+'''
+CR_LEN = '''        if self._length is None:
+            length: str | int = "*"
+        else:
+            length = self._length
+'''
+CR_SPLIT = '''    rng, length_str = rangedef.split("/", 1)
+    if length_str == "*":
+        length = None
+'''
+
+
+def _opt_regex_scan(pattern: str) -> list:
+    return [
+        (H, CONT_RE, CONT_RE + f"_quoted_value_re = re.compile(r'{pattern}')\n"),
+        (H, OPT_QUOTED, '''            elif rest[:1] == '"' and (qm := _quoted_value_re.match(rest)) is not None:
+                parts.append((pk, qm.group()))
+                rest = rest[qm.end() :]
+'''),
+    ]
+
+
+def _opt_scan_helper(stop: str) -> list:
+    return [
+        (H, CONT_RE, CONT_RE + f'''
+
+def _quoted_end(text: str) -> int:
+    """index just behind the closing quote of the quoted-string ``text`` starts with, -1 if it is not closed"""
+    pos = 1
+
+    while pos < len(text):
+        pair = text[pos : pos + 2]
+
+        if pair == "\\\\\\\\" or pair == '\\\\"':
+            pos += 2
+            continue
+
+        if text[pos] == '"':
+            return {stop}
+
+        pos += 1
+
+    return -1
+'''),
+        (H, OPT_QUOTED, '''            elif rest[:1] == '"':
+                stop = _quoted_end(rest)
+
+                if stop != -1:
+                    parts.append((pk, rest[:stop]))
+                    rest = rest[stop:]
+'''),
+    ]
+
+
+def _opt_advance(meth: str) -> str:
+    return f'''        _, sep, rest = rest.{meth}(";")
+
+        if not sep:
+            break
+
+        rest = rest.lstrip()
+'''
+
+
+def _range_branches(test: str) -> str:
+    return f'''        ranges = []
+        for begin, end in self.ranges:
+            if end is not None:
+                ranges.append(f"{{begin}}-{{end - 1}}")
+            elif {test}:
+                ranges.append(f"{{begin}}-")
+            else:
+                # suffix range, the last N bytes
+                ranges.append(str(begin))
+        return f"{{self.units}}={{','.join(ranges)}}"
+'''
+
+
+def _range_comp(suffix_test: str) -> str:
+    return f'''        items = [
+            f"{{begin}}-{{end - 1}}" if end is not None else (str(begin) if {suffix_test} else "%d-" % begin)
+            for begin, end in self.ranges
+        ]
+        return self.units + "=" + ",".join(items)
+'''
+
+
+MUTANTS += [
+    {"name": "options-scan-no-advance-after-quoted", "expect": "R6.7", "edits": [(H, OPT_SCAN, OPT_SCAN.replace("                        rest = rest[pos + 1 :]\n", ""))]},
+    {"name": "options-scan-escape-set-loses-backslash-pair", "expect": "R6.7", "edits": [(H, OPT_SCAN, OPT_SCAN.replace('''in {"\\\\\\\\", '\\\\"'}''', '''in {'\\\\"'}'''))]},
+    {"name": "options-advance-no-lstrip", "expect": "R6.7", "edits": [(H, OPT_ADVANCE, OPT_ADVANCE.replace(".lstrip()", ""))]},
+    {"name": "options-writer-strips-value", "expect": "R6.7", "edits": [(H, OPT_LOOP, OPT_LOOP.replace("quote_header_value(value)", "quote_header_value(str(value).strip())"))]},
+    {"name": "shape:options-scan-find-closing-quote", "expect": "R6.7", "edits": [(H, OPT_QUOTED, '''            elif rest[:1] == '"':
+                closing = rest.find('"', 1)
+
+                if closing != -1:
+                    parts.append((pk, rest[: closing + 1]))
+                    rest = rest[closing + 1 :]
+''')]},
+    {"name": "shape:options-scan-regex-without-escapes", "expect": "R6.7", "edits": _opt_regex_scan('"[^"]*"')},
+    {"name": "shape:options-scan-helper-stops-before-quote", "expect": "R6.7", "edits": _opt_scan_helper("pos")},
+    {"name": "shape:options-advance-rpartition", "expect": "R6.7", "edits": [(H, OPT_ADVANCE, _opt_advance("rpartition"))]},
+    {"name": "range-writer-open-ended-strictly-positive", "expect": "R6.8", "edits": [(R, 'f"{begin}-" if begin >= 0 else str(begin)', 'f"{begin}-" if begin > 0 else str(begin)')]},
+    {"name": "shape:range-writer-branches-zero-to-suffix", "expect": "R6.8", "edits": [(R, RANGE_TO, _range_branches("begin > 0"))]},
+    {"name": "shape:range-writer-comprehension-zero-to-suffix", "expect": "R6.8", "edits": [(R, RANGE_TO, _range_comp("begin <= 0"))]},
+    {"name": "range-parser-rejects-start-at-previous-end", "expect": "R6.8", "edits": [(H, RANGE_ORDER, RANGE_ORDER.replace("begin < last_end", "begin <= last_end"))]},
+    {"name": "range-parser-rejects-one-byte-range", "expect": "R6.8", "edits": [(H, "                if begin >= end:\n", "                if begin + 1 >= end:\n")]},
+    {"name": "content-range-parser-star-misspelled", "expect": "R6.8", "edits": [(H, '    if rng == "*":\n', '    if rng == "":\n')]},
+    {"name": "content-range-writer-zero-length-as-star", "expect": "R6.8", "edits": [(R, CR_LEN, CR_LEN.replace("if self._length is None:", "if not self._length:"))]},
+]
+TWINS += [
+    {"name": "shape:options-scan-regex-quoted-string", "edits": _opt_regex_scan('"(?:\\\\[\\\\"]|\\\\(?![\\\\"])|[^"\\\\])*"')},
+    {"name": "shape:options-scan-helper", "edits": _opt_scan_helper("pos + 1")},
+    {"name": "shape:options-advance-partition", "edits": [(H, OPT_ADVANCE, _opt_advance("partition"))]},
+    {"name": "shape:options-loop-while-rest", "edits": [(H, "    while True:\n        if (m := _parameter_key_re.match(rest)) is not None:", "    while rest:\n        if (m := _parameter_key_re.match(rest)) is not None:")]},
+    {"name": "shape:range-writer-branches", "edits": [(R, RANGE_TO, _range_branches("begin >= 0"))]},
+    {"name": "shape:range-writer-comprehension-suffix-first", "edits": [(R, RANGE_TO, _range_comp("begin < 0"))]},
+    {"name": "shape:range-parser-suffix-by-first-char", "edits": [(H, RANGE_ITEM, RANGE_ITEM.replace('item.startswith("-")', 'item[0] == "-"'))]},
+    {"name": "shape:content-range-writer-ifexp-printf", "edits": [(R, CR_LEN, '''        length = "*" if self._length is None else str(self._length)
+'''), (R, CR_TO, '''        return "%s %d-%d/%s" % (self._units, self._start, self._stop - 1, length)
+''')]},
+    {"name": "shape:content-range-parser-partition", "edits": [(H, CR_SPLIT, '''    rng, _, length_str = rangedef.partition("/")
+    if length_str == "*":
+        length = None
+''')]},
+]
